@@ -26,6 +26,7 @@ import (
 	"os"
 	"strconv"
 	"strings"
+	"sync/atomic"
 	"time"
 
 	"github.com/sarchlab/akita/v4/sim"
@@ -407,6 +408,7 @@ type streamsBench struct {
 	numWG   int
 	streams int
 	wfPerWG int
+	kernels int // kernels per queue (default 1)
 }
 
 func (b *streamsBench) SelectGPU([]int)   {}
@@ -424,10 +426,16 @@ func (b *streamsBench) Run() {
 	if wfPerWG == 0 {
 		wfPerWG = 16
 	}
+	nk := b.kernels
+	if nk == 0 {
+		nk = 1
+	}
 	for _, q := range qs {
-		args := emptyKernelArgs{}
-		b.drv.EnqueueLaunchKernel(q, co, [3]uint32{uint32(64 * wfPerWG * b.numWG), 1, 1},
-			[3]uint16{uint16(64 * wfPerWG), 1, 1}, &args)
+		for k := 0; k < nk; k++ {
+			args := emptyKernelArgs{}
+			b.drv.EnqueueLaunchKernel(q, co, [3]uint32{uint32(64 * wfPerWG * b.numWG), 1, 1},
+				[3]uint16{uint16(64 * wfPerWG), 1, 1}, &args)
+		}
 	}
 	for _, q := range qs {
 		b.drv.DrainCommandQueue(q)
@@ -484,22 +492,65 @@ func (b *multiqBench) Run() {
 	copy(b.digest[:], h.Sum(nil))
 }
 
-func simMode(args []string) {
-	if len(args) < 3 {
-		fmt.Fprintln(os.Stderr, "usage: c05 sim <workload> <size> <rounds> -- <runner flags>")
-		os.Exit(2)
-	}
-	wl := args[0]
-	size, _ := strconv.Atoi(args[1])
-	rounds, _ := strconv.Atoi(args[2])
-	rest := args[3:]
-	if len(rest) > 0 && rest[0] == "--" {
-		rest = rest[1:]
-	}
-	os.Args = append([]string{os.Args[0]}, rest...)
-	flag.Parse()
+// Host-schedule control through the driver's yield hook (build tag verif):
+//
+//	C05_SETTLE=1        at the end of every DrainCommandQueue ("unsub:close", application thread) wait until the
+//	                    engine goroutine has executed all pending events and given up the engine: the known hand-off
+//	                    race (C05/handoff-race) cannot occur, whatever GOMAXPROCS / GOGC are.
+//	C05_HOLD_AFTER=n    once n commands have been dequeued (n = all commands of the run) hold the engine goroutine for
+//	                    300 ms at the end of the driver's tick ("tick:end", twice): the application thread returns and
+//	                    the reporter runs while the engine still has trailing events. Before that point the run is
+//	                    settled as above.
+//	C05_TWICE=1         run the whole simulation twice in this process; one C05SIM line per run.
+type hostSchedule struct {
+	drv       *driver.Driver
+	settle    bool
+	holdAfter int64
+	deq       int64
+	held      int32
+	waits     int64
+}
 
+func (h *hostSchedule) hook(point string) {
+	switch point {
+	case "deq:notify":
+		atomic.AddInt64(&h.deq, 1)
+	case "unsub:close":
+		if !h.settle || (h.holdAfter > 0 && atomic.LoadInt64(&h.deq) >= h.holdAfter) {
+			return
+		}
+		deadline := time.Now().Add(60 * time.Second)
+		for driver.VerifEngineRunning(h.drv) && time.Now().Before(deadline) {
+			atomic.AddInt64(&h.waits, 1)
+			time.Sleep(20 * time.Microsecond)
+		}
+	case "tick:end":
+		if h.holdAfter > 0 && atomic.LoadInt64(&h.deq) >= h.holdAfter && atomic.AddInt32(&h.held, 1) <= 2 {
+			time.Sleep(300 * time.Millisecond)
+		}
+	}
+}
+
+func listSqlite() map[string]bool {
+	m := map[string]bool{}
+	ents, _ := os.ReadDir(".")
+	for _, e := range ents {
+		if strings.HasPrefix(e.Name(), "akita_sim_") && strings.HasSuffix(e.Name(), ".sqlite3") {
+			m[e.Name()] = true
+		}
+	}
+	return m
+}
+
+func simOnce(wl string, size, rounds int, rest []string, runIdx int) {
+	before := listSqlite()
 	rn := new(runner.Runner).Init()
+	hs := &hostSchedule{drv: rn.Driver(), settle: os.Getenv("C05_SETTLE") == "1"}
+	if n, err := strconv.Atoi(os.Getenv("C05_HOLD_AFTER")); err == nil && n > 0 {
+		hs.holdAfter = int64(n)
+		hs.settle = true
+	}
+	driver.VerifYieldHook = hs.hook
 	digest := ""
 	tr := &cmdTracer{tt: rn.Engine(), open: map[string]*cmdRecord{}}
 	tracing.CollectTrace(rn.Driver(), tr)
@@ -525,6 +576,8 @@ func simMode(args []string) {
 		rn.AddBenchmark(&streamsBench{drv: rn.Driver(), numWG: size, streams: rounds})
 	case "longk": // one queue, one long kernel: size work-groups of `rounds` wavefronts
 		rn.AddBenchmark(&streamsBench{drv: rn.Driver(), numWG: size, streams: 1, wfPerWG: rounds})
+	case "longk2": // one queue, two long kernels one after the other
+		rn.AddBenchmark(&streamsBench{drv: rn.Driver(), numWG: size, streams: 1, wfPerWG: rounds, kernels: 2})
 	case "multiq":
 		mq = &multiqBench{drv: rn.Driver(), numWG: size, prepMiB: rounds}
 		rn.AddBenchmark(mq)
@@ -533,6 +586,7 @@ func simMode(args []string) {
 		os.Exit(2)
 	}
 	rn.Run()
+	driver.VerifYieldHook = nil
 	if cb != nil {
 		digest = hex.EncodeToString(cb.digest[:])
 	}
@@ -548,7 +602,15 @@ func simMode(args []string) {
 			lastDone = c.end
 		}
 	}
+	sqliteFile := ""
+	for f := range listSqlite() {
+		if !before[f] {
+			sqliteFile = f
+		}
+	}
 	out := map[string]any{
+		"run": runIdx, "sqlite": sqliteFile, "dequeues": atomic.LoadInt64(&hs.deq), "settle_waits": atomic.LoadInt64(&hs.waits),
+		"held": atomic.LoadInt32(&hs.held),
 		"commands": cmds, "last_command_done": fmt.Sprintf("%.12e", float64(lastDone)),
 		"workload": wl, "size": size, "rounds": rounds, "flags": strings.Join(rest, " "),
 		"final_time_bits": fmt.Sprintf("%016x", math.Float64bits(t)), "final_time": fmt.Sprintf("%.12e", t),
@@ -556,6 +618,29 @@ func simMode(args []string) {
 	}
 	b, _ := json.Marshal(out)
 	fmt.Println("C05SIM " + string(b))
+}
+
+func simMode(args []string) {
+	if len(args) < 3 {
+		fmt.Fprintln(os.Stderr, "usage: c05 sim <workload> <size> <rounds> -- <runner flags>")
+		os.Exit(2)
+	}
+	wl := args[0]
+	size, _ := strconv.Atoi(args[1])
+	rounds, _ := strconv.Atoi(args[2])
+	rest := args[3:]
+	if len(rest) > 0 && rest[0] == "--" {
+		rest = rest[1:]
+	}
+	os.Args = append([]string{os.Args[0]}, rest...)
+	flag.Parse()
+	n := 1
+	if os.Getenv("C05_TWICE") == "1" {
+		n = 2
+	}
+	for i := 0; i < n; i++ {
+		simOnce(wl, size, rounds, rest, i)
+	}
 }
 
 func main() {
